@@ -6,7 +6,7 @@
 From Coq Require Import List ZArith Bool.
 Require Import OV.Fusion.Field OV.Fusion.Norm OV.Fusion.NormProofs OV.Fusion.Gelu OV.Fusion.GeluProofs
                OV.Fusion.MatMul OV.Fusion.MatMulProofs OV.Fusion.Rotary OV.Fusion.RotaryProofs
-               OV.Fusion.Sdpa OV.Fusion.SdpaProofs.
+               OV.Fusion.Sdpa OV.Fusion.SdpaProofs OV.Fusion.Softmax OV.Fusion.SoftmaxProofs.
 Import ListNotations.
 
 (* ---- normalisation ------------------------------------------------------------------------------------ *)
@@ -43,17 +43,65 @@ Proof. exact skip_layer_norm_identity. Qed.
 Print Assumptions C19_skip_layer_norm_identity.
 
 (* side conditions: RmsNormFusion fires only with a float/double stash type; Skip* only on [B,S,D] / [D] shapes *)
-Theorem C19_rms_check_sound : forall x s c e ax st,
-  rms_check_rewrite x s c e = Some (ax, st) -> ax = (-1)%Z /\ (st = 1 \/ st = 11)%Z /\ e = true
+Theorem C19_rms_check_sound : forall g x s c e rx re rs ax st,
+  rms_check_rewrite g x s c e rx re rs = Some (ax, st) -> ax = (-1)%Z /\ (st = 1 \/ st = 11)%Z /\ e = true
   /\ is_float_type x = true /\ is_float_type s = true.
 Proof. exact rms_check_sound. Qed.
 Print Assumptions C19_rms_check_sound.
+
+(* rank side condition (rank_guard = true: the repair proposed_fixes/ready/C19_06; the harness probes which variant each rule
+   file is): an accepted match cannot gain dimensions by broadcasting epsilon / scale / bias, so the pattern's result has the
+   rank of x = the rank of the fused operator's output *)
+Theorem C19_rms_rank_guard_sufficient : forall x s c e rx re rs n a b r,
+  rms_check_rewrite true x s c e rx re rs = Some r -> rx = Some n -> re = Some a -> rs = Some b -> 1 <= n ->
+  bc_rank n a b = n.
+Proof. exact rms_rank_guard_sufficient. Qed.
+Print Assumptions C19_rms_rank_guard_sufficient.
+Theorem C19_ln_rank_guard_sufficient : forall x e rx re rs n a b r,
+  ln_check_rewrite true x e rx re rs = Some r -> rx = Some n -> re = Some a -> rs = Some b -> 1 <= n ->
+  bc_rank n a b = n.
+Proof. exact ln_rank_guard_sufficient. Qed.
+Print Assumptions C19_ln_rank_guard_sufficient.
+Theorem C19_ln_bias_rank_guard_sufficient : forall rx rb n b,
+  ln_bias_check true rx rb = true -> rx = Some n -> rb = Some b -> 1 <= n -> Nat.max n b = n.
+Proof. exact ln_bias_rank_guard_sufficient. Qed.
+Print Assumptions C19_ln_bias_rank_guard_sufficient.
+Example C19_rms_rank_guard_fires : rms_check_rewrite true FLOAT16 FLOAT16 (Some FLOAT) true (Some 3) (Some 0) (Some 1) = Some ((-1)%Z, 1%Z)
+  /\ rms_check_rewrite true FLOAT FLOAT None true (Some 3) (Some 3) (Some 3) = Some ((-1)%Z, 1%Z).
+Proof. exact rms_rank_guard_fires. Qed.
+(* FINDINGS (known, C19:rms_norm / C19:rules.fusion:rms_norm / C19:rules.fusion:layer_norm :epsilon-or-scale-rank-exceeds-input-rank):
+   as read (rank_guard = false) x of rank 3 with an epsilon of rank 4 is accepted and the result rank changes; the repair refuses *)
+Theorem C19_rms_rank_as_read_refuted : exists n a b,
+  rms_check_rewrite false FLOAT FLOAT None true (Some n) (Some a) (Some b) <> None /\ 1 <= n /\ bc_rank n a b <> n
+  /\ rms_check_rewrite true FLOAT FLOAT None true (Some n) (Some a) (Some b) = None.
+Proof. exact rms_rank_as_read_refuted. Qed.
+Print Assumptions C19_rms_rank_as_read_refuted.
+Theorem C19_ln_rank_as_read_refuted : exists n a b,
+  ln_check_rewrite false FLOAT true (Some n) (Some a) (Some b) <> None /\ 1 <= n /\ bc_rank n a b <> n
+  /\ ln_check_rewrite true FLOAT true (Some n) (Some a) (Some b) = None
+  /\ ln_bias_check false (Some n) (Some a) = true /\ ln_bias_check true (Some n) (Some a) = false.
+Proof. exact ln_rank_as_read_refuted. Qed.
+Print Assumptions C19_ln_rank_as_read_refuted.
 
 Theorem C19_skip_check_ranks : forall hb ln i s g be bi st,
   skip_check hb ln i s g be bi st = true ->
   exists si ss sg, i = Some si /\ s = Some ss /\ g = Some sg /\ length si = 3%nat /\ length ss = 3%nat /\ length sg = 1%nat /\ st = 1%Z.
 Proof. exact skip_check_ranks. Qed.
 Print Assumptions C19_skip_check_ranks.
+
+(* check()-sufficiency of the skip fusions: an accepted match has input = skip = [B,S,D] and gamma (beta, bias) = [D] with one D:
+   the documented operand shapes of Skip(Simplified)LayerNormalization, and the situation (rows of equal length D) that
+   C19_skip_rms_norm_identity / C19_skip_layer_norm_identity describe.  Dims may be static or symbolic codes. *)
+Theorem C19_skip_check_sufficient : forall hb ln i s g be bi st,
+  skip_check hb ln (Some i) (Some s) (Some g) be bi st = true ->
+  exists B S D, i = [B; S; D] /\ s = [B; S; D] /\ g = [D] /\ (ln = true -> be = Some [D]) /\ (hb = true -> bi = Some [D]) /\ st = 1%Z
+    /\ skip_op_ok ln i s g (if ln then be else None) (if hb then bi else None) = true.
+Proof. exact skip_check_sufficient. Qed.
+Print Assumptions C19_skip_check_sufficient.
+Example C19_skip_check_sufficient_satisfiable :
+  skip_check true true (Some [2; 3; 8]%Z) (Some [2; 3; 8]%Z) (Some [8]%Z) (Some [8]%Z) (Some [8]%Z) 1 = true
+  /\ skip_check false false (Some [-2; -3; 8]%Z) (Some [-2; -3; 8]%Z) (Some [8]%Z) None None 1 = true.
+Proof. exact skip_check_sufficient_satisfiable. Qed.
 
 (* ---- GELU --------------------------------------------------------------------------------------------- *)
 Theorem C19_gelu_erf_identity : forall F (o : fops F), is_field o -> forall (erf : F -> F) (half sqrt2 : F) x,
@@ -206,3 +254,25 @@ Theorem C19_sdpa_scale_variants : forall F (o : fops F), is_field o -> forall (s
   sdpa_pattern F o softmax sq sk sqk q K mask Vcols = sdpa_spec F o softmax (sdpa_scale F o sq sk sqk) q K mask Vcols.
 Proof. exact sdpa_scale_variants. Qed.
 Print Assumptions C19_sdpa_scale_variants.
+
+(* ---- softmax upcast removal -------------------------------------------------------------------------------- *)
+(* identity with its idealisation explicit: Cast(f32->f16) inverts Cast(f16->f32), and the float32 kernel computes on up-cast
+   values what the float16 kernel computes (the rule's precision claim: NOT provable algebraically, measured by the oracle) *)
+Theorem C19_softmax_upcast_removal : forall F (up down : F -> F) (sm : list F -> list F) x,
+  (forall v, down (up v) = v) -> (forall y, sm (map up y) = map up (sm y)) ->
+  softmax_pattern F up down sm x = softmax_fused F sm x.
+Proof. exact softmax_upcast_removal. Qed.
+Print Assumptions C19_softmax_upcast_removal.
+(* check()-sufficiency: the rule fires only on FLOAT16 -> FLOAT -> FLOAT16, so the casts are an up-cast and its inverse and the
+   replacement keeps the element type of the matched expression *)
+Theorem C19_softmax_check_sufficient : forall i u d, softmax_rule_fires i u d = true ->
+  i = Some FLOAT16 /\ u = FLOAT /\ d = FLOAT16 /\ softmax_fused_dtype FLOAT16 = softmax_pattern_dtype d.
+Proof. exact softmax_check_sufficient. Qed.
+Print Assumptions C19_softmax_check_sufficient.
+Theorem C19_softmax_without_check_refuted : exists i, softmax_fused_dtype i <> softmax_pattern_dtype FLOAT16
+  /\ softmax_rule_fires (Some i) FLOAT FLOAT16 = false.
+Proof. exact softmax_without_check_refuted. Qed.
+Print Assumptions C19_softmax_without_check_refuted.
+Example C19_softmax_identity_nontrivial :
+  softmax_pattern nat (fun v => 2 * v) (fun v => Nat.div v 2) (map (fun v => v + v)) [1; 2; 3] = softmax_fused nat (map (fun v => v + v)) [1; 2; 3].
+Proof. exact softmax_identity_nontrivial. Qed.
